@@ -192,11 +192,12 @@ def bc_is_inhomogeneous(bc):
 def gen_param(rng, name, cls):
     r = rng.random()
     if name == "mass":
-        return rng.choice([0, 0.7, 1, 1.2345678, 0.5])
+        return rng.choice([0, 0, 0.7, 1, 1.2345678, 0.5, -1, -0.7])
     if name == "mobility":
         return rng.choice([1, 1.000001, 1.7, 0.3456789, 2])
     if name in ("speed",):
-        return rng.choice([1, 1.3, 0.7654321, 2, 0.5])
+        # 0 / 1 / -1 are the printing branches of expr_prod(speed**2, ...); a vanishing speed removes the Laplacian term
+        return rng.choice([1, 1.3, 0.7654321, 2, 0.5, 0, 0, -1, -1.3])
     if r < 0.12:
         return 1
     if r < 0.2:
